@@ -22,6 +22,8 @@ pub mod recursion;
 pub mod util;
 #[cfg(plonky2_verif)]
 pub mod verif_exports;
+#[cfg(plonky2_verif)]
+pub mod verif_knobs;
 
 #[cfg(test)]
 mod lookup_test;
